@@ -501,28 +501,29 @@ func c10FlattenFlag(c *Ctx) {
 	for _, ci := range callsToFn(f, f) {
 		recCall = ci.(*ssa.Call)
 	}
-	// walk the values reaching the header phi from inside the loop, edge by edge
-	var walk func(v ssa.Value, pred *ssa.BasicBlock, seen map[ssa.Value]bool)
-	walk = func(v ssa.Value, pred *ssa.BasicBlock, seen map[ssa.Value]bool) {
-		if ph, ok := v.(*ssa.Phi); ok && ph != flag && !seen[ph] {
-			// a merge inside the loop: unless it is the lowering of `a || b`, descend per edge
-			isOr := false
-			for _, e := range ph.Edges {
-				if cst, ok := e.(*ssa.Const); ok && cst.Value != nil && cst.Value.ExactString() == "true" {
-					isOr = true
-				}
+	// walk the values reaching the header phi from inside the loop, edge by edge. Control merges are descended
+	// per incoming edge (with the condition under which that edge is taken after the recursive call); only the
+	// lowering of `a || b` / `a && b` used as a value (go/ssa block "binop.done") is evaluated as one formula.
+	var walk func(v ssa.Value, pred, into *ssa.BasicBlock, seen map[ssa.Value]bool)
+	walk = func(v ssa.Value, pred, into *ssa.BasicBlock, seen map[ssa.Value]bool) {
+		if ph, ok := v.(*ssa.Phi); ok && ph != flag && !seen[ph] && !strings.HasPrefix(ph.Block().Comment, "binop.") {
+			seen[ph] = true
+			for ei, e := range ph.Edges {
+				walk(e, ph.Block().Preds[ei], ph.Block(), seen)
 			}
-			if !isOr {
-				seen[ph] = true
-				for ei, e := range ph.Edges {
-					walk(e, ph.Block().Preds[ei], seen)
-				}
-				return
-			}
+			return
 		}
 		g := pb.valueFormula(v, 0)
 		afterRec := recCall != nil && (recCall.Block() == pred || recCall.Block().Dominates(pred))
-		_, counter := forAll(g, nil, func(en env, fv bool) bool {
+		var ec formula = fConst{true}
+		if afterRec {
+			ec = pb.pathCondEdge(recCall.Block(), pred, into)
+		}
+		_, counter := forAll(mkAnd(ec, mkOr(g, mkNot(g))), nil, func(en env, _ bool) bool {
+			if !evalF(ec, en) {
+				return true // this edge is not taken under this assignment
+			}
+			fv := evalF(g, en)
 			if en.B["old"] && !fv {
 				return false
 			}
@@ -541,14 +542,14 @@ func c10FlattenFlag(c *Ctx) {
 		}
 		if counter != "" {
 			if afterRec {
-				bad = "after a nested struct the flag is not old || nested: " + counter + " (new value " + g.String() + ")"
+				bad = "after a nested struct the flag is not old || nested: " + counter + " (new value " + g.String() + " on the edge taken when " + ec.String() + ")"
 			} else {
 				bad = "the flag can fall back to false inside the loop: " + counter + " (new value " + g.String() + ")"
 			}
 		}
 		if afterRec {
 			fb, fi := map[string]bool{}, map[string]bool{}
-			atomsOf(g, fb, fi)
+			atomsOf(mkAnd(g, ec), fb, fi)
 			if fb["nested"] {
 				dep = true
 			}
@@ -559,7 +560,7 @@ func c10FlattenFlag(c *Ctx) {
 		if !flag.Block().Dominates(p) {
 			continue // loop entry
 		}
-		walk(e, p, map[ssa.Value]bool{})
+		walk(e, p, flag.Block(), map[ssa.Value]bool{})
 	}
 	if !dep && bad == "" {
 		bad = "the flag never takes the nested result into account"
